@@ -33,6 +33,17 @@ RULE = ("random n x m matrices (n 0..40, m 0..6) and targets over int8/16/32/64,
         "(remainder) n = 2T+1, 3T-1, 2T+T/2+1 rows for T threads, all distances non-zero; (outview) out= a column of a "
         "C-ordered (n,3) table, buf[::2], buf[::-1], garbage-filled, whose cells must hold the result afterwards and "
         "whose neighbours must be untouched. "
+        "Round-3s streams: (byteorder) element types of non-native byte order (>i2 >i4 >i8 >u2 >u4 >u8 >f4 >f8 on this little-endian "
+        "machine), every metric x every multi-byte supported type, both arguments swapped with the target a separate array or a "
+        "row view y = X[k] of the matrix (what the clusterers pass), or only X / only y swapped; every X / y layout, with and "
+        "without out: the unchanged code rejects them all (the model: unsupported buffer type); a call that is accepted "
+        "is judged like a valid call (values exact, inputs and the cells around the views byte-identical afterwards); "
+        "(alias) native types with the target a row view y = X[k] (strided in the Fortran / strided / negative-stride layouts), "
+        "every metric, also with out given; (wide) 48, 49, 64, 100, 128, 200 features (and 1, 7, 31, 47 as control), every metric, "
+        "float32 / float64 data with full mantissas (24 / 53-bit numerators, columns spread over 8 binades, |x| < 4) and 32/64-bit integers: the target is a row of X "
+        "(a view, or a copy) whose distance must be exactly 0, another row is the target with 1..3 coordinates moved by 1..2 units in the "
+        "last place, and a third of the cases are offset clouds (every row = target + perturbations of <= 3 units in the last place); "
+        "exactness is judged ROW BY ROW (a row equal or close to the target is in the exact domain although the other rows are not). "
         "non-trivial := valid call with n >= 2, m >= 1 and a non-zero result")
 TRUSTED = ["translator/tr_dist.py (validation functions of libdist.pyx -> Gen/DistValidGen.v)",
            "translator/tr_distkern.py (loop nests / statements of _euclidean, _manhattan, _hamming, fused types, wrappers; "
@@ -79,6 +90,12 @@ def build(c):
     Values in the case are integers; the real value is v / 2**k (k = 0 for integer dtypes)."""
     import numpy as np
     dt = np.dtype(c["dtype"])
+    swap = c.get("swap")
+    ydt0 = dt
+    if swap in ("both", "x"):
+        dt = dt.newbyteorder("S")          # non-native byte order ('>' on a little-endian machine)
+    if swap in ("both", "y"):
+        ydt0 = ydt0.newbyteorder("S")
     k = c.get("k", 0)
 
     def conv(v, d=dt):
@@ -124,7 +141,7 @@ def build(c):
     elif bad == "x3d":
         xbase = filled((n, m, 1), dt, 8); X = xbase
     # ---- y
-    ydt = dt
+    ydt = ydt0
     if bad == "mixed":
         ydt = np.dtype(c["ydtype"])
     yv = list(c["y"])
@@ -138,6 +155,11 @@ def build(c):
         ybase = filled((my,), ydt, 11); y = ybase[::-1]
     for j in range(my):
         y[j] = conv(yv[j], ydt)
+    if c.get("yrow") is not None:
+        # the target is a row of the matrix itself (a view: same memory, the row's strides)
+        y = X[c["yrow"]]
+        ybase = xbase
+        assert [conv(v) for v in yv] == [conv(v) for v in vals[c["yrow"]]]
     if bad == "y2d":
         y = y.reshape(1, my) if yl == "C" else ybase[:my].reshape(1, my)
         ybase = ybase
@@ -491,6 +513,108 @@ def _round2(rng, pool, tier):
     return cases
 
 
+MULTIBYTE = {"euclidean": ["int16", "int32", "int64", "float32", "float64"],
+             "manhattan": ["int16", "int32", "int64", "float32", "float64"],
+             "hamming": ["uint16", "uint32", "uint64", "int16", "int32", "int64"]}
+
+
+def _round3(rng, pool, tier):
+    """round 3s: element types of non-native byte order (rejected by the unchanged code; whatever is accepted must be
+    exact) with separate and aliased targets, and native types with the target a row view of the matrix"""
+    cases = []
+    reps = 1 if tier == "quick" else 5
+    # ---- (byteorder)
+    for rep in range(reps):
+        for metric in ("euclidean", "manhattan", "hamming"):
+            for dtype in MULTIBYTE[metric]:
+                for how in ("alias", "separate", "alias", rng.choice(["x", "y"])):
+                    n, m = rng.choice([2, 3, 5, 9, 17]), rng.choice([1, 2, 3, 6])
+                    if dtype in INT_RANGE:
+                        lo = max(INT_RANGE[dtype][0], -300)
+                        vals, k = [rng.choice([lo, 1, 2, 255, 256, 257, 3, 0]) for _ in range(n * m + m)], 0
+                    else:
+                        vals, k = _values(rng, dtype, n * m + m, "small")
+                    X = [vals[i * m:(i + 1) * m] for i in range(n)]
+                    c = {"metric": metric, "dtype": dtype, "n": n, "m": m, "k": k, "vals": X, "y": vals[n * m:],
+                         "xlayout": rng.choice(XLAYOUTS), "ylayout": rng.choice(YLAYOUTS), "out": rng.choice([None, None, "ok", "strided"]),
+                         "init": 7, "threads": rng.choice(pool), "style": "byteorder", "bad": "byteorder",
+                         "swap": "both" if how in ("alias", "separate") else how}
+                    if how == "alias":
+                        c["yrow"] = rng.randrange(n)
+                        c["y"] = list(X[c["yrow"]])
+                        c["ylayout"] = "rowview"
+                    cases.append(c)
+    # ---- (alias) native element types, target = a row of the matrix
+    for rep in range(reps):
+        for metric in ("euclidean", "manhattan", "hamming"):
+            for lay in XLAYOUTS:
+                dtype = rng.choice(SUPPORT[metric])
+                n, m = rng.choice([2, 3, 5, 9, 17, 33]), rng.choice([1, 2, 3, 6])
+                vals, k = _values(rng, dtype, n * m, "small")
+                X = [vals[i * m:(i + 1) * m] for i in range(n)]
+                yrow = rng.randrange(n)
+                cases.append({"metric": metric, "dtype": dtype, "n": n, "m": m, "k": k, "vals": X, "y": list(X[yrow]),
+                              "xlayout": lay, "ylayout": "rowview", "yrow": yrow, "out": rng.choice([None, "ok", "col"]),
+                              "init": 7, "threads": rng.choice(pool), "style": "alias", "bad": None})
+    return cases
+
+
+WIDE_M = [48, 49, 64, 100, 128, 200]
+NARROW_M = [1, 7, 31, 47]
+
+
+def _round3_wide(rng, pool, tier):
+    """round 3s: wide feature vectors (48..200 features, and 1..47 as control), every metric; floating-point data with
+    full mantissas (24 / 53-bit numerators, columns spread over 8 binades, |x| < 4) or integer data; the target is a row of X (view or copy: that
+    row's distance must be exactly 0), some rows are near-duplicates of the target (1..3 coordinates differ by a few
+    units in the last place: these rows are in the exact domain, so is every row of an `offset` cloud, whose rows all
+    are the target plus perturbations of a few units in the last place)"""
+    cases = []
+    reps = 1 if tier == "quick" else 4
+    deal = ncase = 0
+    for rep in range(reps):
+        for metric in ("euclidean", "manhattan", "hamming"):
+            for m in WIDE_M + NARROW_M:
+                fl = [d for d in SUPPORT[metric] if d.startswith("float")]
+                ints = [d for d in SUPPORT[metric] if d in ("int32", "int64", "uint32", "uint64")]
+                deal += 1
+                for dtype in ([fl[deal % 2], rng.choice(fl + ints)] if fl else [rng.choice(ints)]):
+                    n = rng.choice([3, 4, 6, 9])
+                    if dtype in INT_RANGE:
+                        k, lo, hi, sh = 0, (0 if dtype.startswith("u") else -1000), 1000, [0] * m
+                    else:
+                        # full mantissas, binary exponents spread over 8 binades (column j holds multiples of
+                        # 2^sh[j] / 2^k): sums of squares need far more than 53 bits
+                        mant = 24 if dtype == "float32" else 53
+                        k, lo, hi = mant + 6, 1 - 2 ** mant, 2 ** mant - 1
+                        sh = [rng.choice([0, 0, 3, 6, 8]) for _ in range(m)]
+                    y = [rng.randint(lo, hi) << sh[j] for j in range(m)]
+                    ncase += 1
+                    cloud = ncase % 3 == 0
+                    yrow = rng.randrange(n)
+                    rows = []
+                    for i in range(n):
+                        if i == yrow:
+                            rows.append(list(y))
+                        elif cloud or i == (yrow + 1) % n:
+                            r = list(y)
+                            for j in (range(m) if cloud else rng.sample(range(m), min(m, rng.choice([1, 2, 3])))):
+                                u = (r[j] >> sh[j]) + rng.choice([-3, -2, -1, 1, 2, 3, 0] if cloud else [-2, -1, 1, 2])
+                                r[j] = min(hi, max(lo, u)) << sh[j]
+                            rows.append(r)
+                        else:
+                            rows.append([rng.randint(lo, hi) << sh[j] for j in range(m)])
+                    how = rng.choice(["view", "view", "copy"])
+                    c = {"metric": metric, "dtype": dtype, "n": n, "m": m, "k": k, "vals": rows, "y": list(y),
+                         "xlayout": rng.choice(XLAYOUTS), "ylayout": rng.choice(YLAYOUTS) if how == "copy" else "rowview",
+                         "out": rng.choice([None, None, "ok", "strided"]), "init": 7, "threads": rng.choice(pool),
+                         "style": "wide", "bad": None, "cloud": cloud}
+                    if how == "view":
+                        c["yrow"] = yrow
+                    cases.append(c)
+    return cases
+
+
 def generate(rng, tier):
     pool = [1, 2, 3, 4, 8, 16] if tier == "quick" else list(range(1, 17))
     nv, nb = (360, 120) if tier == "quick" else (3200, 800)
@@ -509,6 +633,8 @@ def generate(rng, tier):
     for _ in range(nb):
         cases.append(_bad_case(rng, pool))
     cases += _round2(rng, pool, tier)
+    cases += _round3(rng, pool, tier)
+    cases += _round3_wide(rng, pool, tier)
     _PENDING[:] = cases
     return cases
 
@@ -519,21 +645,24 @@ def _expected_valid(c):
     return c.get("bad") is None
 
 
-def _exact_domain(c):
-    """all intermediate values are integers (scaled) of magnitude <= 2^53"""
+def _exact_row(c, row):
+    """all intermediate values of this row's distance are integers (scaled) of magnitude <= 2^53"""
     B = 2 ** 53
-    y = c["y"]
-    for row in c["vals"]:
-        acc = 0
-        for a, b in zip(row, y):
-            d = a - b
-            if abs(a) > B or abs(b) > B or abs(d) > B:
-                return False
-            t = d * d if c["metric"] == "euclidean" else abs(d)
-            acc += t
-            if t > B or acc > B:
-                return False
+    acc = 0
+    for a, b in zip(row, c["y"]):
+        d = a - b
+        if abs(a) > B or abs(b) > B or abs(d) > B:
+            return False
+        t = d * d if c["metric"] == "euclidean" else abs(d)
+        acc += t
+        if t > B or acc > B:
+            return False
     return True
+
+
+def _exact_domain(c):
+    """... of every row"""
+    return all(_exact_row(c, row) for row in c["vals"])
 
 
 def oracle(c, r):
@@ -544,7 +673,8 @@ def oracle(c, r):
         return [("metric-name-map", "cluster.util._get_distance_method: %s" % r.get("msg", ""))]
     if err and str(r["err"]).startswith(("Unexpected", "Crash")):
         return [("harness-or-crash", "%s %s" % (r["err"], r.get("msg", "")))]
-    if not valid:
+    if not valid and not (c["bad"] == "byteorder" and not err):
+        # (an accepted call on arrays of non-native byte order is judged below like a valid call: it must be exact)
         if not err:
             out.append(("bad-input-accepted", "malformed call (%s) returned %s" % (c["bad"], str(r)[:200])))
         elif r.get("out_touched"):
@@ -584,8 +714,15 @@ def oracle(c, r):
     got = [F(v) for v in r["val"]]
     if len(got) != n:
         return out
-    exact = _exact_domain(c)
     for i, row in enumerate(c["vals"]):
+        # each row's distance is computed from that row and the target alone: exact where this row's intermediate
+        # values are (e.g. a row equal or close to the target among rows far from it)
+        exact = _exact_row(c, row)
+        if list(row) == list(c["y"]) and got[i] != 0:
+            out.append(("value-" + metric, "row %d is identical to the target but its distance is %r (dtype %s, %d features, layout %s, "
+                        "threads %d%s)" % (i, float(got[i]), c["dtype"], m, c["xlayout"], c["threads"],
+                                           ", target = row %d of X (a view)" % c["yrow"] if c.get("yrow") is not None else "")))
+            break
         # outside the exact range: error bounded relative to the magnitude of the inputs
         T = F(1, 10 ** 12) * max(F(sum(abs(a) + abs(b) for a, b in zip(row, c["y"])), 2 ** k), 1)
         if metric == "hamming":
@@ -605,8 +742,9 @@ def oracle(c, r):
                 ok = g >= 0 and s <= (g + T) ** 2 and (g <= T or (g - T) ** 2 <= s)
             exp = "sqrt(%s)" % s
         if not ok:
-            out.append(("value-" + metric, "row %d: got %s expected %s (dtype %s layout %s threads %d)" % (
-                i, float(got[i]), exp, c["dtype"], c["xlayout"], c["threads"])))
+            out.append(("value-" + metric, "row %d: got %s expected %s (dtype %s%s layout %s threads %d%s)" % (
+                i, float(got[i]), exp, c["dtype"], " non-native byte order (%s)" % c["swap"] if c.get("swap") else "",
+                c["xlayout"], c["threads"], ", target = row %d of X (a view)" % c["yrow"] if c.get("yrow") is not None else "")))
             break
     return out
 
@@ -614,15 +752,16 @@ def oracle(c, r):
 # ----------------------------------------------------------------------------- Coq side
 def _ndarr(a, base, k, dtype):
     bufv, shape, off, strides = _view(a, base, k)
-    return "(Build_ndarr %s %s %s %s %s)" % (clist(bufv, cz, "Z"), NPDT[dtype], clist(shape, cz, "Z"), cz(off),
+    ty = NPDT[dtype] if a.dtype.isnative else "OtherT"     # non-native byte order: no typed buffer accepts it
+    return "(Build_ndarr %s %s %s %s %s)" % (clist(bufv, cz, "Z"), ty, clist(shape, cz, "Z"), cz(off),
                                            clist(strides, cz, "Z"))
 
 
 def _coq_parts(c):
     b = build(c)
     k = c.get("k", 0)
-    X = _ndarr(b["X"], b["xbase"], k, str(b["X"].dtype))
-    y = _ndarr(b["y"], b["ybase"], k, str(b["y"].dtype))
+    X = _ndarr(b["X"], b["xbase"], k, b["X"].dtype.newbyteorder("=").name)
+    y = _ndarr(b["y"], b["ybase"], k, b["y"].dtype.newbyteorder("=").name)
     if b["out"] is None:
         out = "(@None (aobj * list Z))"
     else:
@@ -665,6 +804,10 @@ def tags(c, r):
     if c.get("bad"):
         t.append("bad:" + c["bad"])
         t.append("rejected" if "err" in r else "accepted-bad")
+        if c["bad"] == "byteorder":
+            how = "aliased-target" if c.get("yrow") is not None else "separate-target" if c["swap"] == "both" else "one-argument"
+            t.append("byteorder-%s-%s" % (how, "rejected" if "err" in r else "accepted"))
+            t.append("byteorder-" + c["metric"])
     else:
         t.append("valid")
         if c["threads"] > 1 and c["n"] > c["threads"]:
@@ -673,6 +816,18 @@ def tags(c, r):
             t.append("remainder-rows")
         if "ref_val" in r:
             t.append("cross-thread-compared")
+        if c.get("yrow") is not None and "err" not in r:
+            t.append("target-is-row-view-of-X")
+        if c["style"] == "wide" and "err" not in r:
+            w = "wide-48plus" if c["m"] >= 48 else "narrow-control"
+            t.append("%s-%s-%s" % (w, c["metric"], "float" if c["dtype"].startswith("float") else "int"))
+            if c["m"] >= 48 and c["dtype"].startswith("float"):
+                t.append("wide-48plus-" + c["dtype"])
+                t.append("wide-float-self-distance-zero")
+                if c.get("cloud"):
+                    t.append("wide-float-offset-cloud")
+                else:
+                    t.append("wide-float-near-duplicate-row")
         if c["metric"] == "hamming" and c["dtype"] in ("int8", "uint8") and "err" not in r:
             lim = 128 if c["dtype"] == "int8" else 256
             if any(sum(1 for a, b in zip(row, c["y"]) if a != b) >= lim for row in c["vals"]):
@@ -694,7 +849,14 @@ ESSENTIAL_TAGS = ["metric:euclidean", "metric:manhattan", "metric:hamming", "x:F
                   "bad:unsupported", "bad:out:f32", "bad:out:len+", "bad:out:2d", "bad:out:0d", "valid",
                   "dtype:int32", "dtype:int64", "dtype:float32", "dtype:float64", "dtype:int8", "dtype:uint8",
                   "style:round", "style:ham-wide", "style:remainder", "style:outview", "out:col", "remainder-rows",
-                  "cross-thread-compared", "hamming-count-exceeds-element-type", "noncontiguous-out"]
+                  "cross-thread-compared", "hamming-count-exceeds-element-type", "noncontiguous-out",
+                  # round 3s
+                  "style:byteorder", "style:alias", "bad:byteorder", "byteorder-aliased-target-rejected",
+                  "byteorder-separate-target-rejected", "byteorder-one-argument-rejected", "byteorder-euclidean",
+                  "byteorder-manhattan", "byteorder-hamming", "target-is-row-view-of-X", "y:rowview",
+                  "style:wide", "wide-48plus-euclidean-float", "wide-48plus-manhattan-float", "wide-48plus-hamming-int",
+                  "narrow-control-euclidean-float", "wide-48plus-float32", "wide-48plus-float64",
+                  "wide-float-self-distance-zero", "wide-float-offset-cloud", "wide-float-near-duplicate-row"]
 
 
 def search(rng, tier):
